@@ -15,6 +15,8 @@ import numpy as np
 import icontract
 
 import pyPRISM
+
+from .. import suite as SUITE
 from pyPRISM.core.Density import Density
 from pyPRISM.core.Diameter import Diameter
 
@@ -101,6 +103,8 @@ def setup(ctx):
 
 
 def cases(ctx):
+    if ctx.mine(1):
+        yield {'kind': 'repo_suite'}          # the repository's own tests, run in-process under this check's monitors
     rng = ctx.rng('c15')
     n = ctx.budget(3000, 100000)
     maxsteps = 20 if ctx.thorough() else 10
@@ -163,6 +167,8 @@ def expect_raise(ctx, obj, model, types, name, where):
 
 
 def run_case(ctx, case):
+    if case.get('kind') == 'repo_suite':
+        return SUITE.run(ctx, pattern='[!C]*_test.py')       # everything but the CalcPRISM tests (17 s of solving that adds no events here)
     rng = np.random.default_rng(case['seed'])
     types = list(case['types'])
     steps = gen_steps(rng, types, int(case['nsteps']))
